@@ -4,7 +4,9 @@ Require Import QArith Qcanon List.
 Import ListNotations.
 Require Import LV.Base.CField LV.Base.QcI.
 Require Import LV.SelfCal.TrlModel LV.SelfCal.TrlProofs LV.SelfCal.TrlQI.
-Require Import LV.SelfCal.AutoLoop LV.SelfCal.AutoProofs LV.SelfCal.AutoReplay LV.SelfCal.NullGuards.
+Require Import LV.SelfCal.TrlTermsModel LV.SelfCal.TrlTermsProofs LV.SelfCal.TrlTermsQI.
+Require Import LV.SelfCal.AutoLoop LV.SelfCal.AutoProofs LV.SelfCal.AutoReplay.
+Require Import LV.SelfCal.GuardModel LV.SelfCal.GuardProofs.
 Require Import Permutation.
 Require Import LV.SelfCal.DispatchModel LV.SelfCal.DispatchProofs.
 Local Open Scope cf_scope.
@@ -140,8 +142,136 @@ Theorem trl_guess_on_wrong_side_selects_other_root :
 Proof. exact trl_wrong_side_selects_other. Qed.
 Print Assumptions trl_guess_on_wrong_side_selects_other_root.
 
-(* ---- the Levenberg-Marquardt loop ---- *)
-Theorem auto_terminates_thm : forall (P X KD D : Type)
+(* ---- TRL, second half: the error terms and the corrected device ----
+   With the true l and r written into the S matrices, the (at most 10 x 7) linear system that
+   _vnacal_new_solve_trl hands to _vnacommon_qrsolve (rows as coded: trl_rows_t / trl_rows_u,
+   standards in any order)
+     (1) is solved exactly by the true error box divided by its unity term,
+     (2) has no other solution (full column rank), provided tm11, tm22 <> 0, both ports' boxes are
+         invertible (tdelta), l^2 <> 1 (the line is not a through) and r <> 0 (the reflect is not
+         a match), and
+     (3) vnacal_apply (fill_t8 / fill_u8, 2x2) with a solution returns the S matrix of EVERY
+         device from its measurement, whenever it does not report a singular system (adet <> 0).
+   That _vnacommon_qrsolve returns the solution of a consistent full-rank system, and that the
+   LU solve of vnacal_apply equals the cofactor formula, are C19's subject (exact arithmetic). *)
+Theorem trl_error_terms_exact_unique_correct_T8 : forall (K : CField) (e : tbox K) (l r : K) (order : list skind),
+  tm1 K e <> 0 -> tm2 K e <> 0 -> tdelta1 K e <> 0 -> tdelta2 K e <> 0 -> l * l - 1 <> 0 -> r <> 0 ->
+  tdet K e (s_through K) <> 0 -> tdet K e (s_line K l) <> 0 -> tdet K e (s_reflect K r) <> 0 ->
+  In KT order -> In KR order -> In KL order ->
+  let rows := trl_rows_t K order (meas_t K e (s_through K)) (meas_t K e (s_reflect K r))
+                         (meas_t K e (s_line K l)) l r in
+  (forall row, In row rows -> sat K (x_of_tbox K (tnorm K e)) row) /\
+  (forall x, length x = 7%nat -> (forall row, In row rows -> sat K x row) ->
+     x = x_of_tbox K (tnorm K e) /\
+     forall s, tdet K e s <> 0 -> adet_t K (tbox_of_x K x) (meas_t K e s) <> 0 ->
+               corr_t K (tbox_of_x K x) (meas_t K e s) = s).
+Proof. exact trl_terms_t. Qed.
+Print Assumptions trl_error_terms_exact_unique_correct_T8.
+
+Theorem trl_error_terms_exact_unique_correct_U8 : forall (K : CField) (e : ubox K) (l r : K) (order : list skind),
+  um1 K e <> 0 -> um2 K e <> 0 -> udelta1 K e <> 0 -> udelta2 K e <> 0 -> l * l - 1 <> 0 -> r <> 0 ->
+  udet K e (s_through K) <> 0 -> udet K e (s_line K l) <> 0 -> udet K e (s_reflect K r) <> 0 ->
+  In KT order -> In KR order -> In KL order ->
+  let rows := trl_rows_u K order (meas_u K e (s_through K)) (meas_u K e (s_reflect K r))
+                         (meas_u K e (s_line K l)) l r in
+  (forall row, In row rows -> sat K (x_of_ubox K (unorm K e)) row) /\
+  (forall x, length x = 7%nat -> (forall row, In row rows -> sat K x row) ->
+     x = x_of_ubox K (unorm K e) /\
+     forall s, udet K e s <> 0 -> adet_u K (ubox_of_x K x) (meas_u K e s) <> 0 ->
+               corr_u K (ubox_of_x K x) (meas_u K e s) = s).
+Proof. exact trl_terms_u. Qed.
+Print Assumptions trl_error_terms_exact_unique_correct_U8.
+
+(* both halves: the system is formed with the l and r the root selection returned *)
+Theorem trl_path_corrects_device_T8 : forall (K : CField), char_ok K ->
+  (forall x y : K, {x = y} + {x <> y}) ->
+  forall (sq : K -> K) (Mag : Type) (mag : K -> Mag) (le_abs : Mag -> Mag -> bool),
+  (forall x y, le_abs x y = false -> le_abs y x = true) ->
+  forall (e : tbox K) (l r lguess rguess : K) (order : list skind),
+  tdet K e (s_through K) <> 0 -> tdet K e (s_line K l) <> 0 -> tdet K e (s_reflect K r) <> 0 ->
+  let mt := meas_t K e (s_through K) in let ml := meas_t K e (s_line K l) in
+  let mr := meas_t K e (s_reflect K r) in
+  let a := trl_a K mt ml in let b := trl_b K mt ml in
+  let n := trl_n K mt mr ml l in let d := trl_d K mt mr ml l in
+  a <> 0 -> d <> 0 ->
+  sq (b * b - (two * two) * a * a) * sq (b * b - (two * two) * a * a) = b * b - (two * two) * a * a ->
+  sq (n / d) * sq (n / d) = n / d ->
+  le_abs (mag (trl_u K a b + trl_u K a b - l - lguess)) (mag (l - lguess)) = false ->
+  le_abs (mag (- r - rguess)) (mag (r - rguess)) = false ->
+  tm1 K e <> 0 -> tm2 K e <> 0 -> tdelta1 K e <> 0 -> tdelta2 K e <> 0 -> l * l - 1 <> 0 -> r <> 0 ->
+  In KT order -> In KR order -> In KL order ->
+  let lr := trl_solve K sq Mag mag le_abs mt mr ml lguess rguess in
+  forall x, length x = 7%nat ->
+    (forall row, In row (trl_rows_t K order mt mr ml (fst lr) (snd lr)) -> sat K x row) ->
+    x = x_of_tbox K (tnorm K e) /\
+    forall s, tdet K e s <> 0 -> adet_t K (tbox_of_x K x) (meas_t K e s) <> 0 ->
+              corr_t K (tbox_of_x K x) (meas_t K e s) = s.
+Proof. exact trl_path_corrects_device_t. Qed.
+Print Assumptions trl_path_corrects_device_T8.
+
+Theorem trl_path_corrects_device_U8 : forall (K : CField), char_ok K ->
+  (forall x y : K, {x = y} + {x <> y}) ->
+  forall (sq : K -> K) (Mag : Type) (mag : K -> Mag) (le_abs : Mag -> Mag -> bool),
+  (forall x y, le_abs x y = false -> le_abs y x = true) ->
+  forall (e : ubox K) (l r lguess rguess : K) (order : list skind),
+  udet K e (s_through K) <> 0 -> udet K e (s_line K l) <> 0 -> udet K e (s_reflect K r) <> 0 ->
+  let mt := meas_u K e (s_through K) in let ml := meas_u K e (s_line K l) in
+  let mr := meas_u K e (s_reflect K r) in
+  let a := trl_a K mt ml in let b := trl_b K mt ml in
+  let n := trl_n K mt mr ml l in let d := trl_d K mt mr ml l in
+  a <> 0 -> d <> 0 ->
+  sq (b * b - (two * two) * a * a) * sq (b * b - (two * two) * a * a) = b * b - (two * two) * a * a ->
+  sq (n / d) * sq (n / d) = n / d ->
+  le_abs (mag (trl_u K a b + trl_u K a b - l - lguess)) (mag (l - lguess)) = false ->
+  le_abs (mag (- r - rguess)) (mag (r - rguess)) = false ->
+  um1 K e <> 0 -> um2 K e <> 0 -> udelta1 K e <> 0 -> udelta2 K e <> 0 -> l * l - 1 <> 0 -> r <> 0 ->
+  In KT order -> In KR order -> In KL order ->
+  let lr := trl_solve K sq Mag mag le_abs mt mr ml lguess rguess in
+  forall x, length x = 7%nat ->
+    (forall row, In row (trl_rows_u K order mt mr ml (fst lr) (snd lr)) -> sat K x row) ->
+    x = x_of_ubox K (unorm K e) /\
+    forall s, udet K e s <> 0 -> adet_u K (ubox_of_x K x) (meas_u K e s) <> 0 ->
+              corr_u K (ubox_of_x K x) (meas_u K e s) = s.
+Proof. exact trl_path_corrects_device_u. Qed.
+Print Assumptions trl_path_corrects_device_U8.
+
+(* every hypothesis of the two theorems above about the error terms is met by the Q[i] boxes of
+   TrlQI.v (order L, T, R; a solution x0 / x1 of all ten rows; a device with both determinants
+   non-zero), and the conclusions are also obtained by computation *)
+Theorem trl_error_terms_hyps_satisfiable_T8 :
+  tm1 QIF e0 <> qi0 /\ tm2 QIF e0 <> qi0 /\ tdelta1 QIF e0 <> qi0 /\ tdelta2 QIF e0 <> qi0 /\
+  qi_sub (qi_mul l0 l0) qi1 <> qi0 /\ r0 <> qi0 /\
+  tdet QIF e0 (s_through QIF) <> qi0 /\ tdet QIF e0 (s_line QIF l0) <> qi0 /\
+  tdet QIF e0 (s_reflect QIF r0) <> qi0 /\
+  In KT order0 /\ In KR order0 /\ In KL order0 /\
+  length x0 = 7%nat /\ (forall row, In row rows0 -> sat QIF x0 row) /\
+  tdet QIF e0 dut0 <> qi0 /\ adet_t QIF (tbox_of_x QIF x0) (meas_t QIF e0 dut0) <> qi0.
+Proof. exact trl_terms_hyps_satisfiable_t. Qed.
+Print Assumptions trl_error_terms_hyps_satisfiable_T8.
+
+Theorem trl_error_terms_hyps_satisfiable_U8 :
+  um1 QIF f0 <> qi0 /\ um2 QIF f0 <> qi0 /\ udelta1 QIF f0 <> qi0 /\ udelta2 QIF f0 <> qi0 /\
+  qi_sub (qi_mul l0 l0) qi1 <> qi0 /\ r0 <> qi0 /\
+  udet QIF f0 (s_through QIF) <> qi0 /\ udet QIF f0 (s_line QIF l0) <> qi0 /\
+  udet QIF f0 (s_reflect QIF r0) <> qi0 /\
+  In KT order0 /\ In KR order0 /\ In KL order0 /\
+  length x1 = 7%nat /\ (forall row, In row rows1 -> sat QIF x1 row) /\
+  udet QIF f0 dut0 <> qi0 /\ adet_u QIF (ubox_of_x QIF x1) (meas_u QIF f0 dut0) <> qi0.
+Proof. exact trl_terms_hyps_satisfiable_u. Qed.
+Print Assumptions trl_error_terms_hyps_satisfiable_U8.
+
+Theorem trl_error_terms_instances :
+  (length rows0 = 10%nat /\ m2_eqb (corr_t QIF (tbox_of_x QIF x0) (meas_t QIF e0 dut0)) dut0 = true) /\
+  (length rows1 = 10%nat /\ m2_eqb (corr_u QIF (ubox_of_x QIF x1) (meas_u QIF f0 dut0)) dut0 = true).
+Proof. exact (conj trl_terms_instance_t trl_terms_instance_u). Qed.
+Print Assumptions trl_error_terms_instances.
+
+(* ---- the Levenberg-Marquardt loop ----
+   The kernel operations (QR, Jacobian and V-matrix update, LU step, norms) are Section variables of
+   AutoLoop.v, i.e. TOTAL Coq functions: that each kernel call returns is ASSUMED by this
+   representation.  The theorem bounds the passes through the loop body of the control skeleton;
+   it does not prove that the numeric kernels return. *)
+Theorem auto_loop_passes_bounded_thm : forall (P X KD D : Type)
   (solve_x : nat -> P -> option (X * KD)) (sumk : KD -> Qc) (step : nat -> KD -> Qc -> option D)
   (apply_step : P -> D -> P) (normd : D -> Qc) (normdx : X -> X -> Qc)
   (ptol ettol plen xlen : Qc) (limit : nat) (p0 : P),
@@ -153,9 +283,12 @@ Theorem auto_terminates_thm : forall (P X KD D : Type)
   (forall extra, loop P X KD D solve_x sumk step apply_step normd normdx ptol ettol plen xlen limit
                       (S limit + extra) 0 (init P X KD p0) = r).
 Proof. exact auto_terminates. Qed.
-Print Assumptions auto_terminates_thm.
+Print Assumptions auto_loop_passes_bounded_thm.
 
-Theorem auto_fixed_point_thm : forall (P X KD D : Type)
+(* stated at the level of the abstract kernel: IF the kernel reports a zero step and a zero change
+   of x at p0, the loop returns at the first pass.  That exact data make the kernel report this
+   is not derived (named under "Not proved"). *)
+Theorem auto_fixed_point_oracle_level_thm : forall (P X KD D : Type)
   (solve_x : nat -> P -> option (X * KD)) (sumk : KD -> Qc) (step : nat -> KD -> Qc -> option D)
   (apply_step : P -> D -> P) (normd : D -> Qc) (normdx : X -> X -> Qc)
   (ptol ettol plen xlen : Qc) (limit : nat) (p0 : P) (x0 : X) (kd0 : KD) (d0 : D),
@@ -166,8 +299,9 @@ Theorem auto_fixed_point_thm : forall (P X KD D : Type)
   auto_run P X KD D solve_x sumk step apply_step normd normdx ptol ettol plen xlen limit p0 =
   (Converged x0 p0, [Entry true 1%Qc (1 * sumk kd0)%Qc true]).
 Proof. exact auto_fixed_point. Qed.
-Print Assumptions auto_fixed_point_thm.
+Print Assumptions auto_fixed_point_oracle_level_thm.
 
+(* toy kernel: all hypotheses of the fixed-point theorem hold (first component); limit 1 exhausts *)
 Theorem auto_examples :
   (outcome_tag (fst (toy_run (q 1 1000) 30 (Q2Qc 3))) = 0%nat /\
    length (snd (toy_run (q 1 1000) 30 (Q2Qc 3))) = 1%nat) /\
@@ -176,55 +310,126 @@ Theorem auto_examples :
 Proof. exact (conj toy_fixed_point toy_exhausts). Qed.
 Print Assumptions auto_examples.
 
-(* ---- update of the S matrices never reads through an absent cell (form with the test
-        first); the form that reads before the test does (candidate D19) ---- *)
-Theorem update_s_safe_thm : forall stds, update_s_matrices false stds = Ok.
+Local Open Scope nat_scope.
+
+(* ---- _vnacal_new_solve_update_s_matrices on checked memory (GuardModel.v): for every list of
+        standards whose S matrices mix absent (NULL), known and unknown cells in any way -- with
+        the vectors as long as their allocation sites make them (wf_std, wf_p) -- the walk never
+        reads or writes out of bounds and never through a NULL cell; afterwards the cells of
+        unknown parameters hold the parameters' current values, all others are unchanged ---- *)
+Theorem update_s_safe_thm : forall (V : Type) (s_rows s_columns : nat) (p_vector : list (list V))
+  (findex : nat) (v0 : V),
+  wf_p V p_vector findex ->
+  forall stds : list (sstd V),
+  (forall s, In s stds -> wf_std V s_rows s_columns p_vector s) ->
+  exists stds', update_s_matrices V s_rows s_columns p_vector findex stds = MOk stds' /\
+                Forall2 (updated V s_rows s_columns p_vector findex v0) stds stds'.
 Proof. exact update_s_safe. Qed.
 Print Assumptions update_s_safe_thm.
 
-Theorem update_s_safe_refuted_thm : exists stds, update_s_matrices true stds = NullDeref.
-Proof. exact update_s_safe_refuted. Qed.
-Print Assumptions update_s_safe_refuted_thm.
+(* the index computation s_row * s_columns + s_column enumerates the allocation exactly *)
+Theorem update_s_cell_indices_thm : forall R C, cell_indices R C = seq 0 (R * C).
+Proof. exact cell_indices_seq. Qed.
+Print Assumptions update_s_cell_indices_thm.
 
-(* ---- which solver is used: the analytic TRL path only for exact TRL shapes ---- *)
+(* documents finding D19 (fixed in /repo): the function as it was, with the unknown index read in
+   front of the NULL test, faults on a well-formed single-reflect standard *)
+Theorem update_s_before_D19_faults_thm :
+  exists stds, (forall s, In s stds -> wf_std nat 2 2 [[7]] s) /\ wf_p nat [[7]] 0 /\
+               update_s_matrices_before_D19 nat 2 2 [[7]] 0 stds = MNull.
+Proof. exact update_s_before_D19_faults. Qed.
+Print Assumptions update_s_before_D19_faults_thm.
+
+Theorem update_s_instance_thm :
+  update_s_matrices nat 2 2 [[7]] 0
+    [SStd nat [Some (SParam true 0); Some (SParam false 0); Some (SParam false 0); None] [1; 0; 0; 9]] =
+  MOk [SStd nat [Some (SParam true 0); Some (SParam false 0); Some (SParam false 0); None] [7; 0; 0; 9]].
+Proof. exact update_s_instance. Qed.
+Print Assumptions update_s_instance_thm.
+
+(* ---- which solver is used ----
+   classify_standard dereferences S cells; cells are NULL where the caller gave nothing (single
+   reflect).  In DispatchModel every dereference of an absent cell yields Fault. *)
+Theorem dispatch_never_faults_thm : forall ty rows cols stds unknowns correlated m_error,
+  dispatch ty rows cols stds unknowns correlated m_error <> Fault.
+Proof. exact dispatch_never_faults. Qed.
+Print Assumptions dispatch_never_faults_thm.
+
+(* documents finding D69 (fixed in /repo): classify_standard as it was before the NULL test read
+   through the absent S11 of a single reflect on port 2 (2x2 T8, two unknowns, three standards) *)
+Theorem dispatch_before_D69_faults_thm :
+  dispatch_before_D69 T8 2 2 [std_single2 (Unknown 0); std_single1 (Unknown 1); std_T] 2 0 false = Fault.
+Proof. exact dispatch_before_D69_faults. Qed.
+Print Assumptions dispatch_before_D69_faults_thm.
+
+Theorem dispatch_single_reflects_examples_thm :
+  dispatch T8 2 2 [std_single2 (Unknown 0); std_single1 (Unknown 1); std_T] 2 0 false = Val PathAuto /\
+  dispatch UE10 2 2 [std_T; std_single2 (Unknown 0); std_R 1] 2 0 false = Val PathAuto /\
+  dispatch TE10 2 2 [std_L 0; std_T; (Unknown 1, Absent, Absent, Known 3)] 2 0 false = Val PathAuto.
+Proof. exact dispatch_single_reflects. Qed.
+Print Assumptions dispatch_single_reflects_examples_thm.
+
+(* the analytic TRL path only for exact TRL shapes *)
 Theorem trl_path_only_for_exact_shapes_thm : forall ty rows cols stds unknowns correlated m_error,
-  dispatch ty rows cols stds unknowns correlated m_error = PathTrl ->
+  dispatch ty rows cols stds unknowns correlated m_error = Val PathTrl ->
   rows = 2%nat /\ cols = 2%nat /\ eight_term ty = true /\ unknowns = 2%nat /\ correlated = 0%nat /\
   m_error = false /\ exists a b, Permutation stds [std_T; std_R a; std_L b].
 Proof. exact trl_path_only_for_exact_shapes. Qed.
 Print Assumptions trl_path_only_for_exact_shapes_thm.
 
+Theorem partial_standard_not_trl_thm : forall ty rows cols stds unknowns correlated m_error s,
+  In s stds -> has_absent s = true ->
+  dispatch ty rows cols stds unknowns correlated m_error <> Val PathTrl.
+Proof. exact partial_standard_not_trl. Qed.
+Print Assumptions partial_standard_not_trl_thm.
+
 Theorem exact_shapes_take_trl_path_thm : forall ty a b, eight_term ty = true ->
-  dispatch ty 2 2 [std_T; std_R a; std_L b] 2 0 false = PathTrl /\
-  dispatch ty 2 2 [std_L b; std_T; std_R a] 2 0 false = PathTrl /\
-  dispatch ty 2 2 [std_R a; std_L b; std_T] 2 0 false = PathTrl.
+  forall stds, Permutation stds [std_T; std_R a; std_L b] ->
+  dispatch ty 2 2 stds 2 0 false = Val PathTrl.
 Proof. exact exact_shapes_take_trl_path. Qed.
 Print Assumptions exact_shapes_take_trl_path_thm.
 
 Theorem not_trl_examples_thm :
-  dispatch T8 2 2 [std_T; std_R 0; (Known 5, Unknown 1, Unknown 1, Known 5)] 2 0 false = PathAuto /\
-  dispatch U8 2 2 [std_T; (Unknown 0, Zero, Zero, Unknown 2); std_L 1] 3 0 false = PathAuto /\
-  dispatch TE10 2 2 [(Zero, One, Known 7, Zero); std_R 0; std_L 1] 2 0 false = PathAuto /\
-  dispatch UE10 2 2 [std_T; (Corr 0, Zero, Zero, Corr 0); std_L 1] 2 1 false = PathAuto /\
-  dispatch T8 2 2 [std_T; std_R 0; std_L 1] 2 0 true = PathAuto /\
-  dispatch T16 2 2 [std_T; std_R 0; std_L 1] 2 0 false = PathAuto /\
-  dispatch T8 2 2 [std_T; std_R 0; std_L 1; (Zero, Zero, Zero, Zero)] 2 0 false = PathAuto.
+  dispatch T8 2 2 [std_T; std_R 0; (Known 5, Unknown 1, Unknown 1, Known 5)] 2 0 false = Val PathAuto /\
+  dispatch U8 2 2 [std_T; (Unknown 0, Zero, Zero, Unknown 2); std_L 1] 3 0 false = Val PathAuto /\
+  dispatch TE10 2 2 [(Zero, One, Known 7, Zero); std_R 0; std_L 1] 2 0 false = Val PathAuto /\
+  dispatch UE10 2 2 [std_T; (Corr 0, Zero, Zero, Corr 0); std_L 1] 2 1 false = Val PathAuto /\
+  dispatch T8 2 2 [std_T; std_R 0; std_L 1] 2 0 true = Val PathAuto /\
+  dispatch T16 2 2 [std_T; std_R 0; std_L 1] 2 0 false = Val PathAuto /\
+  dispatch T8 2 2 [std_T; std_R 0; std_L 1; (Zero, Zero, Zero, Zero)] 2 0 false = Val PathAuto.
 Proof. exact not_trl_examples. Qed.
 Print Assumptions not_trl_examples_thm.
 
-(* ---- write-back: after a solve the parameter's value at every calibration frequency of that
-        solve is the solved value, whatever the parameter object held before ---- *)
-Theorem writeback_exact_thm : forall (F V : Type) (F_eqb : F -> F -> bool),
+(* ---- write-back: the steps of _vnacal_new_solve_internal (free, conditional reallocation,
+        unconditional memcpy of the calibration grid, hand-over of the solved vector) leave the
+        calibration grid and the solved values in the parameter object whatever it held before;
+        get_parameter_value at a stored frequency is modelled as a look-up (exact at knots: C10).
+        The content is in the step model and in the re-solve tie; the look-up lemma is routine. ---- *)
+Theorem writeback_grid_thm : forall (F V : Type) (f0 : F) (old : pobj F V) (fs : list F) (vs : list V),
+  pf F V (writeback F V f0 old fs vs) = fs.
+Proof. exact writeback_grid. Qed.
+Print Assumptions writeback_grid_thm.
+
+Theorem writeback_exact_thm : forall (F V : Type) (F_eqb : F -> F -> bool) (f0 : F),
   (forall a b, F_eqb a b = true <-> a = b) ->
   forall (old : pobj F V) (fs : list F) (vs : list V) (i : nat) (df : F) (dv : V),
   NoDup fs -> length fs = length vs -> (i < length fs)%nat ->
-  get F V F_eqb (writeback F V true old fs vs) (nth i fs df) = Some (nth i vs dv).
+  get F V F_eqb (writeback F V f0 old fs vs) (nth i fs df) = Some (nth i vs dv).
 Proof. exact writeback_exact. Qed.
 Print Assumptions writeback_exact_thm.
 
-(* the form that copies the calibration grid only when the number of points changed *)
-Theorem writeback_stale_grid_refuted_thm :
+Theorem writeback_exact_instance_thm :
+  let old := PObj nat nat [1; 2] [10; 20] in
+  NoDup [3; 4] /\ length [3; 4] = length [30; 40] /\
+  get nat nat Nat.eqb (writeback nat nat 0 old [3; 4] [30; 40]) 4 = Some 40 /\
+  get nat nat Nat.eqb (writeback nat nat 0 (PObj nat nat [7] [70]) [3; 4] [30; 40]) 3 = Some 30.
+Proof. exact writeback_exact_instance. Qed.
+Print Assumptions writeback_exact_instance_thm.
+
+(* a model VARIANT, not the code: copying the grid only inside the reallocation branch (the shape
+   of seeded change C02-1) keeps a stale grid; regression witness *)
+Theorem model_variant_writeback_stale_grid_thm :
   exists old fs vs, NoDup fs /\ length fs = length vs /\
-    get nat nat Nat.eqb (writeback nat nat false old fs vs) (nth 0 fs 0%nat) <> Some (nth 0 vs 0%nat).
-Proof. exact writeback_stale_grid_refuted. Qed.
-Print Assumptions writeback_stale_grid_refuted_thm.
+    get nat nat Nat.eqb (writeback_variant_copy_on_realloc nat nat 0 old fs vs) (nth 0 fs 0%nat) <> Some (nth 0 vs 0%nat).
+Proof. exact model_variant_writeback_stale_grid. Qed.
+Print Assumptions model_variant_writeback_stale_grid_thm.
